@@ -266,6 +266,42 @@ class Recorder:
         prev = self.driftref[i]
         return prev is None or prev == tuple(ref)
 
+    def gauge_pair(self, i, mode):
+        """Copy of object i with a rigid time-dependent translation; correct both with the same reference; compare."""
+        from gemdat import Trajectory
+        t = self.objs[i]
+        if not self.small.get(i, False) or self.driftref.get(i) is not None:
+            return False
+        r = self.ref_atoms(i, mode)
+        kw, ref = r
+        if not self.drift_ok(i, ref):
+            return False
+        T = len(t)
+        # rigid drift signal on the /16 grid, one grid unit per frame at most (total step stays below a quarter cell)
+        inc = self.rng.integers(-1, 2, size=(T, 3))
+        inc[0] = self.rng.integers(-BASE, BASE, size=3)          # arbitrary constant offset, then at most one grid unit per frame
+        g = np.cumsum(inc, axis=0) * LC
+        pos = np.array(project(t)['pos'])
+        new = Trajectory(species=t.species, coords=(pos + g[:, None, :]) / N, lattice=self.lattice, time_step=t.time_step,
+                         metadata=dict(t.metadata))
+        self.objs.append(new)
+        j = len(self.objs) - 1
+        self.driftref[j] = None
+        self.small[j] = True
+        self.log('ConstructShifted', i=i + 1, g=g.tolist())
+        ci = None
+        for src in (i, j):
+            c = self.objs[src].apply_drift_correction(**kw)
+            self.objs.append(c)
+            k = len(self.objs) - 1
+            self.driftref[k] = tuple(ref)
+            self.small[k] = True
+            self.log('ApplyDrift', i=src + 1, ref=ref, kw=str(kw))
+            if ci is None:
+                ci = k
+        self.log('Gauge', ci=ci + 1, cj=k + 1)
+        return True
+
     def drift(self, i, mode):
         r = self.ref_atoms(i, mode)
         if r is None:
@@ -360,6 +396,8 @@ def random_behaviour(b, rng, family, orientation, n_steps, acts, max_objs=6, Tma
             ok = rec.extend(i, j)
         elif act == 'ReadOnly':
             rec.read_only(i, str(rng.choice(['msd', 'volume', 'metrics', 'len', 'structure', 'com', 'repr', 'transitions', 'rdf', 'metrics2'])))
+        elif act == 'GaugePair':
+            ok = len(rec.objs) + 3 <= max_objs + 3 and rec.gauge_pair(i, str(rng.choice(['fixed', 'floating', 'none'])))
         elif act == 'Drift':
             ok = rec.drift(i, str(rng.choice(['fixed', 'floating', 'none'])))
         elif act == 'ApplyDrift':
